@@ -81,6 +81,9 @@ func (g *gen) funcInChanOut(name string, typ types.Type) (inTyp, outTyp types.Ty
 	if params.Len() != 1 {
 		return nil, nil, fmt.Errorf("%s, the function has more than one parameter", name)
 	}
+	if sig.Variadic() {
+		return nil, nil, fmt.Errorf("%s, the function argument is variadic, which is not supported", name)
+	}
 	if results.Len() != 1 {
 		return nil, nil, fmt.Errorf("%s, the function has more than one result", name)
 	}
